@@ -19,6 +19,7 @@ import (
 	"github.com/foxboron/go-uefi/efivar"
 
 	"verifharness/adapt"
+	"verifharness/ref/acode"
 	"verifharness/gen"
 	"verifharness/hx"
 	"verifharness/ref/esl"
@@ -36,6 +37,8 @@ type Case struct {
 	DB      hx.Hex // database stream
 	Ident   int
 	Lists   [][]Op // one operation list per goroutine; list 0 is also run sequentially first
+	NoSeq   bool   // skip the sequential phase: the goroutines make the very first calls on the fresh object
+	BadTail bool   // image: a malformed WIN_CERTIFICATE (wrong revision) follows the valid entries
 }
 
 var opKinds = map[string][]string{
@@ -64,6 +67,20 @@ func genCase(t *rapid.T) Case {
 			c.Signers = append(c.Signers, id)
 		}
 		c.Img = bin.Bytes()
+		if rapid.IntRange(0, 4).Draw(t, "badtail") == 0 {
+			// append an entry with an unsupported revision: listing / verifying then fails, and must fail the same way every time
+			if es, _, err := acode.Table(c.Img); err == nil {
+				table := []byte{}
+				for _, e := range es {
+					table = append(table, acode.BuildTable([][]byte{e.Blob})...)
+				}
+				bad := acode.BuildTable([][]byte{gen.FillBytes(t, 24)})
+				bad[4], bad[5] = 0x00, 0x01
+				if out, err := acode.WithTable(c.Img, append(table, bad...)); err == nil {
+					c.Img, c.BadTail = out, true
+				}
+			}
+		}
 	default:
 		ls := gen.ESLStream(4).Draw(t, "db")
 		var keep []esl.List
@@ -72,8 +89,16 @@ func genCase(t *rapid.T) Case {
 				keep = append(keep, l)
 			}
 		}
+		if rapid.IntRange(0, 2).Draw(t, "biglist") == 0 {
+			big := esl.List{Type: esl.SHA256, Size: 48}
+			for i := rapid.IntRange(33, 60).Draw(t, "bign"); i > 0; i-- {
+				big.Entries = append(big.Entries, esl.Entry{Owner: gen.Owners[i%3], Data: gen.FillBytes(t, 32)})
+			}
+			keep = append(keep, big)
+		}
 		c.DB = esl.Encode(keep)
 	}
+	c.NoSeq = rapid.Bool().Draw(t, "noseq")
 	ng := rapid.SampledFrom([]int{1, 2, 2, 3, 4, 8, 16}).Draw(t, "goroutines")
 	kinds := opKinds[c.Object]
 	for g := 0; g < ng; g++ {
@@ -208,11 +233,21 @@ func checkCase(c Case) error {
 	}
 	switch c.Object {
 	case "image", "database":
-		twin, _, err := build()
-		if err != nil {
-			return err
+		// every distinct call is made once on its own freshly built twin object
+		baseline = map[Op]string{}
+		for _, l := range c.Lists {
+			for _, op := range l {
+				if _, ok := baseline[op]; ok {
+					continue
+				}
+				twin, _, err := build()
+				if err != nil {
+					return err
+				}
+				baseline[op] = twin(op)
+			}
 		}
-		baseline = mkBaseline(twin)
+		var err error
 		run, final, err = build()
 		if err != nil {
 			return err
@@ -300,8 +335,17 @@ func checkCase(c Case) error {
 		}
 	}
 
+	if c.NoSeq {
+		hx.Class("first_calls_made_concurrently")
+	}
+	if c.BadTail {
+		hx.Class("image_with_malformed_trailing_entry")
+	}
 	// sequential repetition on the shared object
 	for i, op := range c.Lists[0] {
+		if c.NoSeq && len(c.Lists) >= 2 {
+			break
+		}
 		if got := run(op); got != baseline[op] {
 			return fmt.Errorf("%s: sequential call %d (%s/%d) returned %s, the same call on a fresh twin object returned %s", c.Object, i, op.Kind, op.Arg, got, baseline[op])
 		}
